@@ -638,14 +638,18 @@ fn sweep_chains() -> Vec<Vec<Pk>> {
 }
 
 // ------------------------------------------------------------------------------------------------ reference: FLDA shape
-/// independent recogniser of a file-transfer data package: verbose log-info message with 5 arguments whose first and
+/// independent recogniser of a file-transfer data package: verbose log-info message (or one with a reserved message type,
+/// see below) with 5 arguments whose first and
 /// last argument are the 5-byte ASCII strings "FLDA\0"
 fn ref_is_flda(m: &DltMessage) -> bool {
     let e = match &m.extended_header {
         Some(e) => e,
         None => return false,
     };
-    if e.verb_mstp_mtin != V_LOG_INFO || e.noar != 5 {
+    // verbose, type-info 'info', message type 'log'. The four reserved message-type values (4..7) are decoded as logs by
+    // the library; whether such a message is a data package is not defined by the statement: accepted either way
+    let (verbose, mstp, mtin) = (e.verb_mstp_mtin & 1, (e.verb_mstp_mtin >> 1) & 7, e.verb_mstp_mtin >> 4);
+    if verbose != 1 || mtin != 4 || !(mstp == 0 || mstp >= 4) || e.noar != 5 {
         return false;
     }
     let be = m.standard_header.htyp & MSBF != 0;
@@ -1443,6 +1447,32 @@ impl Prop for C19 {
                         msgs.iter_mut().for_each(|m| m.lifecycle = 1);
                         run_case(ctx, &Case { family: "file_transfer".into(), chain: vec![PSpec::Ft(cfg.clone())], tags, msgs });
                         tick!(ctx, 1024);
+                    }
+                }
+            }
+        }
+        ctx.end_family(true);
+
+        // ---- (2b) file transfer: the message type byte of an announcement / data package / end marker look-alike
+        ctx.begin_family("file_transfer_type_byte", &format!("FLST, typed look-alike, FLDA 1, FLDA 2, FLFI: the look-alike = FLST / FLDA / FLFI shaped message with every type byte 0..=255 x {} FileTransfer configs", ft_cfgs().len()));
+        {
+            let by_tag = |n: &str| ftp.iter().find(|x| x.tag == n).expect("pool element");
+            for cfg in ft_cfgs() {
+                for shape in ["ft_flst", "flda_1", "ft_flfi"] {
+                    for vmm in 0..=255u8 {
+                        if ctx.mine() {
+                            let mut typed = by_tag(shape).clone();
+                            typed.tag = format!("{shape}_type_{vmm:02x}");
+                            typed.ext.as_mut().unwrap().0 = vmm;
+                            let sel: Vec<&T> = vec![by_tag("ft_flst"), &typed, by_tag("flda_1"), by_tag("flda_2"), by_tag("ft_flfi")];
+                            let (tags, mut msgs) = compose(&sel);
+                            msgs.iter_mut().for_each(|m| m.lifecycle = 1);
+                            if vmm != V_LOG_INFO && shape == "flda_1" {
+                                ctx.landmark("flda_shaped_other_type");
+                            }
+                            run_case(ctx, &Case { family: "file_transfer_type_byte".into(), chain: vec![PSpec::Ft(cfg.clone())], tags, msgs });
+                            tick!(ctx, 1024);
+                        }
                     }
                 }
             }
